@@ -319,7 +319,8 @@ func (c04) Run(t *testing.T, scenario any, job *Job, res *Result) {
 		res.AddSession(s)
 		res.Probe("crash_points_checked", s.Stats.Steps)
 		fail := func(kind, sig, detail string) {
-			res.Violate(kind, sig, fmt.Sprintf("fault %s dir=%d at byte %d of %d: %s", f.Kind, f.Dir, at, total, detail))
+			res.Violate(kind, sig, fmt.Sprintf("fault %s dir=%d at byte %d of %d: %s\noutcome=%v client=%v (done %v) server=%v (done %v)\nclient log: %s\nserver log: %s", f.Kind, f.Dir, at, total, detail,
+				s.Outcome, s.ClientErr, s.ClientDone, s.ServerErr, s.ServerDone, tail(s.ClientStderr, 500), tail(s.ServerStderr, 900)))
 			f.At, f.Frac = at, 0
 			sc.Faults = []C04Fault{*f}
 			sc.Sync.Tr.Tape = nil
